@@ -236,6 +236,13 @@ type MixFractionObject struct {
 // But changes to the mix settings need to be kept separate from LanceroSource.distrubuteData,
 // which is part of the data-*production* step, not the data-processing step.
 func (s *SourceControl) ConfigureMixFraction(mfo *MixFractionObject, reply *bool) error {
+	// The mix requests of a LanceroSource are served by its data-production step, which exists only while
+	// the source runs: without this check a request to a stopped source would wait forever.
+	s.handlePossibleStoppedSource()
+	if !s.isSourceActive {
+		*reply = false
+		return fmt.Errorf("no source is active")
+	}
 	currentMix, err := s.ActiveSource.ConfigureMixFraction(mfo)
 	*reply = (err == nil)
 	s.broadcastMixState(currentMix)
